@@ -155,14 +155,22 @@ pub fn module(r: &mut Rng, allow_unstable: bool) -> (Vec<u8>, AInfo) {
         let mut ind = we::IndirectNameMap::new(); let mut any_l = false; for fi in n_imp_funcs..funcs.len() { if only.map(|o| o == 1).unwrap_or(r.chance(1, 2)) { let np = types[funcs[fi] as usize].0.len(); let lm = mk(r, np + 2, 1); if !lm.is_empty() { any_l = true; ind.append(fi as u32, &lm); } } }
         if stale && only.map(|o| o == 1).unwrap_or(true) { let mut lm = we::NameMap::new(); lm.append(0, "local-of-a-function-that-does-not-exist"); ind.append(funcs.len() as u32 + 2, &lm); any_l = true; }
         if any_l || only.is_none() { ns.locals(&ind); }
+        // subsections walrus does not interpret (labels: id 3, between locals and types; fields and tags at the end): they may be dropped, but must not
+        // disturb any other subsection
+        let uninterpreted = only.is_none() && r.chance(1, 3);
+        if uninterpreted && n_imp_funcs < funcs.len() { let mut lm = we::NameMap::new(); lm.append(0, "exit"); lm.append(1, "again"); let mut il = we::IndirectNameMap::new(); il.append(n_imp_funcs as u32, &lm); ns.labels(&il); }
         for (kind, n) in [(2u64, types.len()), (3, tables.len()), (4, mems.len()), (5, globals.len()), (6, n_elems), (7, n_d)] { let nm = mk(r, n, kind); if nm.is_empty() && only.is_some() { continue; }
             match kind { 2 => { ns.types(&nm); } 3 => { ns.tables(&nm); } 4 => { ns.memories(&nm); } 5 => { ns.globals(&nm); } 6 => { ns.elements(&nm); } _ => { ns.data(&nm); } } }
+        if uninterpreted && r.chance(1, 2) { let mut fm = we::NameMap::new(); fm.append(0, "field0"); let mut il = we::IndirectNameMap::new(); il.append(0, &fm); ns.fields(&il); let mut tg = we::NameMap::new(); tg.append(0, "tag0"); ns.tags(&tg); }
         m.section(&ns);
     }
     custom(&mut m, r, &mut info, &mut customs_left);
     if r.chance(1, 3) { info.has_producers = true; let mut p = we::ProducersSection::new();
-        let mut f = we::ProducersField::new(); f.value("rustc", "1.70"); p.field("language", &f);
-        if r.chance(1, 2) { let mut f = we::ProducersField::new(); f.value("clang", "15"); if r.chance(1, 2) { f.value("walrus", "0.0.1"); } p.field("processed-by", &f); }
+        // only the three field names of the tool-conventions document exist (wasmparser rejects any other); a field may have no value at all, and a
+        // value name may occur twice in one field
+        let mut f = we::ProducersField::new(); f.value("rustc", "1.70"); if r.chance(1, 4) { f.value("rustc", "1.71"); } p.field("language", &f);
+        match r.below(4) { 0 => { let f = we::ProducersField::new(); p.field("sdk", &f); } 1 => { let mut f = we::ProducersField::new(); f.value("emscripten", "3.1"); f.value("emscripten", "3.1"); p.field("sdk", &f); } _ => {} }
+        if r.chance(1, 2) { let mut f = we::ProducersField::new(); f.value("clang", "15"); if r.chance(1, 2) { f.value("walrus", "0.0.1"); } if r.chance(1, 4) { f.value("clang", "16"); } p.field("processed-by", &f); }
         m.section(&p); }
     while customs_left > 0 { let before = customs_left; custom(&mut m, r, &mut info, &mut customs_left); if before == customs_left && r.chance(1, 2) { break; } }
     (m.finish(), info)
